@@ -404,8 +404,8 @@ def isvector(v, dim=None):
     if isinstance(v, np.ndarray):
         s = v.shape
         if dim is None:
-            return (len(s) == 1 and s[0] > 0) or (s[0] == 1 and s[1] > 0) \
-                   or (s[0] > 0 and s[1] == 1)
+            return (len(s) == 1 and s[0] > 0) or (len(s) == 2 and 
+                   ((s[0] == 1 and s[1] > 0) or (s[0] > 0 and s[1] == 1)))
         else:
             return s == (dim,) or s == (1, dim) or s == (dim, 1)
 
